@@ -453,11 +453,66 @@ func VH_c04_open() {
 	vAssert(len(pc.Capability) == len(caps), "capability count changed by the round trip")
 	for i := range caps {
 		vAssert(pc.Capability[i].Code() == caps[i].Code() && pc.Capability[i].Len() == caps[i].Len(), "capability changed by the round trip")
+		vAssert(c04sameCap(caps[i], pc.Capability[i]), "a capability's field values changed by the round trip")
 	}
 	got.Header.Len = 0
 	b2, err := got.Serialize()
 	vAssert(err == nil && c04eqBytes(b, b2), "re-serialising the parsed OPEN is not a fixpoint")
 	vReach("end")
+}
+
+// field-by-field equality of the capability kinds with numeric fields (true for the others: their
+// bytes are compared by the fixpoint check)
+func c04sameCap(a, b ParameterCapabilityInterface) bool {
+	switch x := a.(type) {
+	case *CapMultiProtocol:
+		y, ok := b.(*CapMultiProtocol)
+		return ok && x.CapValue == y.CapValue
+	case *CapFourOctetASNumber:
+		y, ok := b.(*CapFourOctetASNumber)
+		return ok && x.CapValue == y.CapValue
+	case *CapAddPath:
+		y, ok := b.(*CapAddPath)
+		if !ok || len(x.Tuples) != len(y.Tuples) {
+			return false
+		}
+		for i := range x.Tuples {
+			if *x.Tuples[i] != *y.Tuples[i] {
+				return false
+			}
+		}
+	case *CapGracefulRestart:
+		y, ok := b.(*CapGracefulRestart)
+		if !ok || x.Flags != y.Flags || x.Time != y.Time || len(x.Tuples) != len(y.Tuples) {
+			return false
+		}
+		for i := range x.Tuples {
+			if *x.Tuples[i] != *y.Tuples[i] {
+				return false
+			}
+		}
+	case *CapLongLivedGracefulRestart:
+		y, ok := b.(*CapLongLivedGracefulRestart)
+		if !ok || len(x.Tuples) != len(y.Tuples) {
+			return false
+		}
+		for i := range x.Tuples {
+			if *x.Tuples[i] != *y.Tuples[i] {
+				return false
+			}
+		}
+	case *CapExtendedNexthop:
+		y, ok := b.(*CapExtendedNexthop)
+		if !ok || len(x.Tuples) != len(y.Tuples) {
+			return false
+		}
+		for i := range x.Tuples {
+			if *x.Tuples[i] != *y.Tuples[i] {
+				return false
+			}
+		}
+	}
+	return true
 }
 
 func VH_c04_notification_refresh() {
